@@ -595,11 +595,38 @@ read_tun(int tun_fd, char *buf, size_t len)
 }
 #endif
 
+/* Returns 1 if str is a plain dotted quad: four decimal numbers 0..255
+   separated by dots and nothing else. */
+static int
+is_dotted_quad(const char *str)
+{
+	int parts = 0;
+
+	while (1) {
+		int digits = 0;
+		int value = 0;
+
+		while (*str >= '0' && *str <= '9' && digits < 3) {
+			value = value * 10 + (*str - '0');
+			digits++;
+			str++;
+		}
+		if (digits == 0 || value > 255)
+			return 0;
+		parts++;
+		if (parts == 4)
+			return *str == '\0';
+		if (*str != '.')
+			return 0;
+		str++;
+	}
+}
+
 int
 tun_setip(const char *ip, const char *other_ip, int netbits)
 {
 	char cmdline[512];
-	int netmask;
+	unsigned int netmask;
 	struct in_addr net;
 	int i;
 #ifndef LINUX
@@ -617,15 +644,25 @@ tun_setip(const char *ip, const char *other_ip, int netbits)
 #endif
 #endif
 
+	if (netbits < 0 || netbits > 32) {
+		fprintf(stderr, "Invalid netmask: %d bits!\n", netbits);
+		return 1;
+	}
 	netmask = 0;
 	for (i = 0; i < netbits; i++) {
-		netmask = (netmask << 1) | 1;
+		netmask = (netmask >> 1) | 0x80000000u;
 	}
-	netmask <<= (32 - netbits);
 	net.s_addr = htonl(netmask);
 
-	if (inet_addr(ip) == INADDR_NONE) {
+	/* The addresses come from the peer and end up in a shell command:
+	   accept nothing but a plain dotted quad (inet_addr() also takes
+	   "1.2.3.4 ;anything"). */
+	if (!is_dotted_quad(ip)) {
 		fprintf(stderr, "Invalid IP: %s!\n", ip);
+		return 1;
+	}
+	if (!is_dotted_quad(other_ip)) {
+		fprintf(stderr, "Invalid IP: %s!\n", other_ip);
 		return 1;
 	}
 #ifndef WINDOWS32
